@@ -372,10 +372,10 @@ class WatchdogSim(PeerSim):
             p.send("0", [("112", reqid)], seq=p.next_out + 1, spec={"plan": "answer_gap"})
         elif mode == "wrong":
             self.wrong_sent_at.append(self.loop.time())
-            wrong = str(int(reqid or 0) + 13)
+            wrong = str(int(reqid or 0) + 1000013)  # (far from every id of the run: ids are clock seconds, +13 once equalled the next request)
             if self.cfg.get("wrong_dup"):
                 # the wrong echo carries TestReqID twice (both wrong): still a wrong echo
-                p.send("0", [("112", wrong), ("112", str(int(reqid or 0) + 14))], spec={"plan": "answer_wrong"})
+                p.send("0", [("112", wrong), ("112", str(int(reqid or 0) + 1000014))], spec={"plan": "answer_wrong"})
             else:
                 p.send("0", [("112", wrong)], spec={"plan": "answer_wrong"})
         elif mode == "noid":
